@@ -688,6 +688,46 @@ type NewOptions struct {
 	DNSSearchLists []DNSSearchList
 }
 
+// Copy returns a deep copy of the options: no slice of the result shares memory with o.
+func (o NewOptions) Copy() NewOptions {
+	dup := func(b []byte) []byte {
+		if b == nil {
+			return nil
+		}
+		return append([]byte{}, b...)
+	}
+	rdnss := func(r RecursiveDNSServer) RecursiveDNSServer {
+		s := make([]net.IP, len(r.Servers))
+		for i := range s {
+			s[i] = dup(r.Servers[i])
+		}
+		r.Servers = s
+		return r
+	}
+	o.Prefixes = append([]PrefixInformation(nil), o.Prefixes...)
+	for i := range o.Prefixes {
+		o.Prefixes[i].Prefix = dup(o.Prefixes[i].Prefix)
+	}
+	o.FirstPrefix = dup(o.FirstPrefix)
+	o.SourceLLA.MAC, o.TargetLLA.MAC = dup(o.SourceLLA.MAC), dup(o.TargetLLA.MAC)
+	o.RouteInformation.Prefix = dup(o.RouteInformation.Prefix)
+	o.RDNSS = rdnss(o.RDNSS)
+	o.DNSSearchList.DomainNames = append([]string(nil), o.DNSSearchList.DomainNames...)
+	o.Routes = append([]RouteInformation(nil), o.Routes...)
+	for i := range o.Routes {
+		o.Routes[i].Prefix = dup(o.Routes[i].Prefix)
+	}
+	o.RDNSSList = append([]RecursiveDNSServer(nil), o.RDNSSList...)
+	for i := range o.RDNSSList {
+		o.RDNSSList[i] = rdnss(o.RDNSSList[i])
+	}
+	o.DNSSearchLists = append([]DNSSearchList(nil), o.DNSSearchLists...)
+	for i := range o.DNSSearchLists {
+		o.DNSSearchLists[i].DomainNames = append([]string(nil), o.DNSSearchLists[i].DomainNames...)
+	}
+	return o
+}
+
 func newParseOptions(b []byte) (NewOptions, error) {
 	var options NewOptions
 
